@@ -5,6 +5,7 @@ list_bind_options, find_root_candidates, decomposition, conditioned) and the end
 import Driver.E2E
 import PmVerif.Spec.PGSpec
 import PmVerif.Spec.PGAnch
+import PmVerif.Spec.PGWF
 namespace Drv
 open Pm
 
@@ -244,6 +245,7 @@ def pgE2E : E2EDom PGKey Nat PGPred PortGraph PGMap PgPat :=
     programOK := some fun a _ cvs =>
       if (cvs.any fun o => match o with | some cs => pgSigMultiRoot cs | none => false) then 2
       else if pgProgramOK a cvs then 1 else 0,
-    knownC03 := fun p => match pgKnown p with | some "pg:multiRoot" => some "pg:multiRoot" | _ => none }
+    knownC03 := fun p => match pgKnown p with | some "pg:multiRoot" => some "pg:multiRoot" | _ => none,
+    wfPat := fun p => p.1.linksOKb, wfHost := fun h => h.linksOKb }
 
 end Drv
